@@ -409,8 +409,15 @@ theorem angleWithSym_bracket {L : List M3} (self other : X) {a : ℝ} (h : angle
   exact ⟨⟨g, hg, (angleTo_bracket dot self (act g other)).1⟩,
     fun k hk => le_trans (hmin k hk) (angleTo_bracket dot self (act k other)).2⟩
 
-/-- SEVERAL `other` vectors (code-shaped, finding C10-angle-sym-several-others): the code takes the minimum over the
-concatenated orbits of all of them.  For one `other` vector this is the symmetry-aware angle … -/
+/-- SEVERAL `other` vectors: entry `i` is the symmetry-aware angle of the pair at position `i` (the repaired code, fix
+820316b) -/
+theorem angleWithSymEach_getElem (L : List M3) (selfs others : List X) (i : ℕ) (h₁ : i < selfs.length) (h₂ : i < others.length) :
+    (angleWithSymEach act dot L selfs others)[i]'(by simp [angleWithSymEach]; omega) =
+      angleWithSym act dot L selfs[i] others[i] := by
+  simp [angleWithSymEach]
+
+/-- SEVERAL `other` vectors, the code BEFORE fix 820316b (fixed finding C10-angle-sym-several-others): it took the minimum
+over the concatenated orbits of all of them.  For one `other` vector this is the symmetry-aware angle … -/
 theorem angleWithSymAll_singleton (L : List M3) (self other : X) :
     angleWithSymAll act dot L self [other] = angleWithSym act dot L self other := by
   simp [angleWithSymAll, angleWithSym]
